@@ -43,6 +43,9 @@ PrefixReadCase(T, raw, follow) ==      \* raw: the stored prefix as an unsigned 
       ok == ~neg /\ raw <= follow
   IN [op |-> "prefixed_read", prefix |-> T.name, segs |-> << Lit(LEw(raw, T.w)), Blob(9, 0, follow) >>,
       expect |-> IF ok THEN "ok" ELSE "refuse", count |-> IF ok THEN raw ELSE 0, consumed |-> IF ok THEN T.w + raw ELSE 0]
+\* ---- typed writes and typed reads are mutual inverses: fixed-size values and containers of them (C14) ----------------------------
+TypedCase(w, vals) == [op |-> "typed_roundtrip", width |-> w, values |-> vals,
+                       segs |-> << Lit(Flatten([i \in 1..Len(vals) |-> LEw(vals[i] % (IF w = 1 THEN 256 ELSE IF w = 2 THEN 65536 ELSE 2147483647), w)])) >>]
 Init == done = FALSE
 Next == /\ ~done /\ done' = TRUE
         /\ \A ks \in Vectors : Emit("vol_limit", ks, VolRefused(Vec(ks)))
@@ -50,6 +53,9 @@ Next == /\ ~done /\ done' = TRUE
         /\ \A i \in 1..Len(SignedTypes) : LET T == SignedTypes[i] IN
              \A raw \in {0, 1, T.half - 1, T.half, T.half + 1, T.mod - 2, T.mod - 1} : \A follow \in {0, raw, T.mod + 10} :
                PrintT("S|" \o ToJson([id |-> <<"prefix-read", T.name, raw, follow>>, steps |-> << PrefixReadCase(T, raw, follow) >>]))
+        /\ \A w \in {1, 2, 4} : \A vals \in { <<>>, <<0>>, <<255>>, <<1, 2, 3>>, <<65535, 0, 258>>, <<16909060, 7>> } :
+             (\A i \in 1..Len(vals) : vals[i] < (IF w = 1 THEN 256 ELSE IF w = 2 THEN 65536 ELSE 2147483647)) =>
+               PrintT("S|" \o ToJson([id |-> <<"typed", w, vals>>, steps |-> << TypedCase(w, vals) >>]))
         /\ Assert(NoWrappedPrefix, "an accepted count would not fit its prefix")
         /\ \A i \in 1..Len(PrefixTypes) : \A n \in PrefixCounts(PrefixTypes[i]) :
              PrintT("S|" \o ToJson([id |-> <<"prefix", PrefixTypes[i].name, n>>, steps |-> << PrefixCase(PrefixTypes[i], n) >>]))
